@@ -194,7 +194,29 @@ def stack_size_cache_rule(rep, rid):
     gs = gs[0]
     sw = [blk for blk in gs.blocks.values() if any(l == "case" for l, _, _ in blk.succ)]
     if len(sw) != 1:
-        raise AnalysisBroken("get_stack_size: switch over the stack-size class not found")
+        # written as an if-chain: each return of a member is judged by the comparison that is known true on its path
+        from engine.kinds import FactFlow
+        ffg = FactFlow(gs, eh=False)
+        members, n = set(), 0
+        for b, i, e in gs.all_events():
+            if e.get("k") != "return" or e.get("e") is None:
+                continue
+            r = T(strip(e["e"]))
+            if not re.match(r"^this->\w+$", r):
+                continue
+            members.add(r[6:])
+            classes = [m_.group(1).rstrip("_") for a, t in (ffg.before.get((b, i)) or frozenset()) if t
+                       for m_ in [re.search(r"thread_stacksize::(\w+)", a)] if m_ and "==" in a]
+            if not classes:
+                continue                    # the fall-through return (small / default)
+            n += 1
+            if r[6:].startswith(classes[-1]):
+                rep.ok(rid, gs, "get_stack_size(%s) hands out %s" % (classes[-1], r[6:]))
+            else:
+                rep.bad(rid, gs, gs.loc, "stack-size-class:" + classes[-1], "get_stack_size(thread_stacksize::%s) returns %s: tasks of that class run on stacks of another class's configured size" % (classes[-1], r[6:]))
+        if len(members) < 4 or n < 3:
+            raise AnalysisBroken("get_stack_size: neither a switch over the stack-size class nor an if-chain returning the cached members was recognised")
+        sw = None
 
     def returned_from(b):
         seen = set()
@@ -208,9 +230,10 @@ def stack_size_cache_rule(rep, rid):
                 return None
             b = blk.succ[0][1]
         return None
-    members = set()
-    n = 0
-    for l, t, raw in sw[0].succ:
+    if sw is not None:
+        members = set()
+        n = 0
+    for l, t, raw in (sw[0].succ if sw is not None else []):
         r = returned_from(t)
         if r and re.match(r"^this->\w+$", r):
             members.add(r[6:])
@@ -224,7 +247,7 @@ def stack_size_cache_rule(rep, rid):
             rep.ok(rid, gs, "get_stack_size(%s) hands out %s" % (cls, r[6:]))
         else:
             rep.bad(rid, gs, gs.loc, "stack-size-class:" + cls, "get_stack_size(thread_stacksize::%s) returns %s: tasks of that class run on stacks of another class's configured size" % (cls, r[6:]))
-    if len(members) < 4 or n < 4:
+    if len(members) < 4 or n < (4 if sw is not None else 3):
         raise AnalysisBroken("get_stack_size: only %d cached stack-size members recognised (%s)" % (len(members), sorted(members)))
     users = [f for f in F.fns if f.parent == -1 and f is not gs and any(e.get("k") == "call" and callee_short(e) in ("pre_initialize_ini", "post_initialize_ini") for _, _, e in f.all_events())
              and not f.qname.endswith("_initialize_ini")]
